@@ -63,6 +63,18 @@ def flag_names(test, truth=True):
     return out
 
 
+def always_exits(stmts):
+    """the statement list cannot fall through (ends in return / raise / continue / break on every branch)"""
+    if not stmts:
+        return False
+    last = stmts[-1]
+    if isinstance(last, (ast.Return, ast.Raise, ast.Continue, ast.Break)):
+        return True
+    if isinstance(last, ast.If):
+        return always_exits(last.body) and always_exits(last.orelse)
+    return False
+
+
 def ds_store_key(st):
     """'k' for  <x>._ds["k"] = ... / ds["k"] = ...  else None"""
     if isinstance(st, ast.Assign) and len(st.targets) == 1:
@@ -80,6 +92,7 @@ def stores_with_guards(fnode):
     out = []
 
     def walk(stmts, absent, flags):
+        absent = set(absent)
         for st in stmts:
             k = ds_store_key(st)
             if k is not None:
@@ -94,6 +107,11 @@ def stores_with_guards(fnode):
                         or_with_flag |= absent_keys(v, True)
                 walk(st.body, absent | a_t | or_with_flag, flags | (f_t if or_with_flag or not a_t else set()))
                 walk(st.orelse, absent | absent_keys(st.test, False), flags)
+                # guard clause: `if k in ds: return ...` -- what follows runs only when the test was false (and vice versa)
+                if always_exits(st.body) and not always_exits(st.orelse):
+                    absent |= absent_keys(st.test, False)
+                elif st.orelse and always_exits(st.orelse) and not always_exits(st.body):
+                    absent |= a_t
             elif isinstance(st, (ast.For, ast.While, ast.With, ast.Try)):
                 for fld in ("body", "orelse", "finalbody"):
                     walk(getattr(st, fld, []) or [], absent, flags)
@@ -104,31 +122,99 @@ def stores_with_guards(fnode):
     return out
 
 
+def _literal_bindings(program, g: FuncInfo):
+    """[{param: "literal"}] one per call site of g when every call site passes string literals for the same parameters (None when g has no call site or a site
+    passes something else for a parameter that another site passes a literal for)."""
+    params = [p for p in g.all_param_names()]
+    sites = []
+    for f in program.all_functions():
+        for n in ast.walk(f.node):
+            if isinstance(n, ast.Call):
+                r = program.resolve_expr(f.module, n.func, f)
+                if isinstance(r, FuncInfo) and r.node is g.node:
+                    b = {}
+                    ps = params[1:] if (g.cls is not None and isinstance(n.func, ast.Attribute)) else params
+                    for p_, a in zip(ps, n.args):
+                        if str_const(a) is not None:
+                            b[p_] = str_const(a)
+                    for k in n.keywords:
+                        if k.arg and str_const(k.value) is not None:
+                            b[k.arg] = str_const(k.value)
+                    sites.append(b)
+    if not sites:
+        return None
+    keys = set(sites[0])
+    if not keys or any(set(b) != keys for b in sites):
+        return None
+    uniq = []
+    for b in sites:
+        if b not in uniq:
+            uniq.append(b)
+    return uniq
+
+
+def _has_call_site(program, g: FuncInfo):
+    for f in program.all_functions():
+        for n in ast.walk(f.node):
+            if isinstance(n, ast.Call):
+                r = program.resolve_expr(f.module, n.func, f)
+                if isinstance(r, FuncInfo) and r.node is g.node:
+                    return True
+    return False
+
+
+def _specialise_tests(fnode, binding):
+    """copy of the function with  <param> in/not in ...  tests rewritten for a literal binding of string parameters"""
+    import copy
+
+    class T(ast.NodeTransformer):
+        def visit_Name(self, n):
+            if isinstance(n.ctx, ast.Load) and n.id in binding:
+                return ast.copy_location(ast.Constant(value=binding[n.id]), n)
+            return n
+    return T().visit(copy.deepcopy(fnode))
+
+
 def call_sites_with_guards(program, target: FuncInfo):
-    """[(caller FuncInfo, call node, absent keys implied at the call site, flags passed)]"""
+    """[(caller FuncInfo, call node, absent keys implied at the call site, flags passed)].  A caller whose guard tests a string PARAMETER (`if name in self._ds`)
+    is read once per literal value its own callers pass for that parameter."""
     out = []
     for f in program.all_functions():
-        def walk(stmts, absent):
-            for st in stmts:
-                if isinstance(st, ast.If):
-                    walk(st.body, absent | absent_keys(st.test, True))
-                    walk(st.orelse, absent | absent_keys(st.test, False))
-                    continue
-                if isinstance(st, (ast.For, ast.While, ast.With, ast.Try)):
-                    for fld in ("body", "orelse", "finalbody"):
-                        walk(getattr(st, fld, []) or [], absent)
-                    for h in getattr(st, "handlers", []) or []:
-                        walk(h.body, absent)
-                    continue
-                if isinstance(st, (ast.FunctionDef, ast.ClassDef)):
-                    continue
-                for n in ast.walk(st):
-                    if isinstance(n, ast.Call):
-                        r = program.resolve_expr(f.module, n.func, f)
-                        if isinstance(r, FuncInfo) and r.node is target.node:
-                            flags = {k.arg for k in n.keywords if k.arg in ("repopulate",) and isinstance(k.value, ast.Constant) and k.value.value is True}
-                            out.append((f, n, set(absent), flags))
-        walk(f.node.body, set())
+        if not any(isinstance(n, ast.Call) and (dotted(n.func) or [""])[-1] == target.name for n in ast.walk(f.node)):
+            continue
+        variants = [f.node]
+        binds = _literal_bindings(program, f)
+        if binds is None and f.name.startswith("_") and f.name in (getattr(f.module, "normalised", {}) or {}).get("inlined_helpers", []) and not _has_call_site(program, f):
+            continue      # a private helper whose body was substituted into every caller (normaliser N4): the callers carry its call sites now
+        if binds and any(isinstance(x, ast.Compare) and isinstance(x.left, ast.Name) and x.left.id in binds[0] for x in ast.walk(f.node)):
+            variants = [_specialise_tests(f.node, b) for b in binds]
+        for fnode in variants:
+            def walk(stmts, absent):
+                absent = set(absent)
+                for st in stmts:
+                    if isinstance(st, ast.If):
+                        walk(st.body, absent | absent_keys(st.test, True))
+                        walk(st.orelse, absent | absent_keys(st.test, False))
+                        if always_exits(st.body) and not always_exits(st.orelse):
+                            absent |= absent_keys(st.test, False)
+                        elif st.orelse and always_exits(st.orelse) and not always_exits(st.body):
+                            absent |= absent_keys(st.test, True)
+                        continue
+                    if isinstance(st, (ast.For, ast.While, ast.With, ast.Try)):
+                        for fld in ("body", "orelse", "finalbody"):
+                            walk(getattr(st, fld, []) or [], absent)
+                        for h in getattr(st, "handlers", []) or []:
+                            walk(h.body, absent)
+                        continue
+                    if isinstance(st, (ast.FunctionDef, ast.ClassDef)):
+                        continue
+                    for n in ast.walk(st):
+                        if isinstance(n, ast.Call):
+                            r = program.resolve_expr(f.module, n.func, f)
+                            if isinstance(r, FuncInfo) and r.node is target.node:
+                                flags = {k.arg for k in n.keywords if k.arg in ("repopulate",) and isinstance(k.value, ast.Constant) and k.value.value is True}
+                                out.append((f, n, set(absent), flags))
+            walk(fnode.body, set())
     return out
 
 
@@ -260,12 +346,26 @@ def check_getters(run, program, names, rule_prefix="F-LAZY"):
                    and str_const(r.value.slice) is not None for r in rets):
             continue  # not of the lazily-derived-variable form (e.g. n_edge reads a dimension size)
         guards = []
-        for st in iter_stmts(f.node.body):
-            if isinstance(st, ast.If):
-                ak = absent_keys(st.test, True)
-                if ak:
-                    guards.append((st, ak))
-        for st, ak in guards:
+
+        def find_guards(stmts):
+            for i, st in enumerate(stmts):
+                if isinstance(st, ast.If):
+                    ak = absent_keys(st.test, True)
+                    if ak:
+                        guards.append((st, ak, st.body))
+                    akf = absent_keys(st.test, False)
+                    if akf and st.orelse:
+                        guards.append((st, akf, st.orelse))
+                    elif akf and always_exits(st.body):
+                        # guard clause  `if "k" in ds: return ds["k"]`  : the rest of the list is the region where k is absent
+                        guards.append((st, akf, stmts[i + 1:]))
+                    find_guards(st.body)
+                    find_guards(st.orelse)
+                elif isinstance(st, (ast.For, ast.While, ast.With, ast.Try)):
+                    for fld in ("body", "orelse", "finalbody"):
+                        find_guards(getattr(st, fld, []) or [])
+        find_guards(f.node.body)
+        for st, ak, region in guards:
             c = f"Grid.{name}:guard"
             if name in ak:
                 run.holds(f"{rule_prefix}/guard-key", c, where(f, st), f'guard tests "{name}"')
@@ -274,7 +374,7 @@ def check_getters(run, program, names, rule_prefix="F-LAZY"):
             # what does the guarded body store?
             stored = set()
             raises = False
-            for sub in iter_stmts(st.body):
+            for sub in iter_stmts(region):
                 k = ds_store_key(sub)
                 if k:
                     stored.add(k)
